@@ -1,16 +1,30 @@
 #!/usr/bin/env python3
 """Builds a Properties/Cxx.v file whose theorems restate (verbatim) theorems proved elsewhere and are
 closed by `exact`.  Usage: gen_property_file.py spec.json  where spec = {"out":..., "header":..., "requires":[...],
-"theorems":[{"name":..., "file":..., "source":..., "comment":...}], "extra": "<raw Coq appended>"}"""
+"theorems":[{"name":..., "file":..., "source":..., "comment":...}], "extra": "<raw Coq appended>"}.
+With "append_marker": "<comment line>" the header/requires are not written: the existing file is kept up to the marker
+line (exclusive) and marker + theorems (+ extra) are appended (idempotent); "extra_requires" lines are inserted before the
+file's "Import ListNotations" line if not present."""
 import json, re, sys
 spec = json.load(open(sys.argv[1]))
-out = ["(* %s *)\n" % spec["header"].replace("*)", "* )")]
-for r in spec["requires"]:
-    out.append(r + "\n")
-out.append("\n")
+if spec.get("append_marker"):
+    cur = open("/verif/coq/" + spec["out"]).read()
+    marker = spec["append_marker"]
+    if marker in cur:
+        cur = cur[:cur.index(marker)]
+    for r in spec.get("extra_requires", []):
+        if r not in cur:
+            i = cur.index("Import ListNotations")
+            cur = cur[:i] + r + "\n" + cur[i:]
+    out = [cur.rstrip("\n") + "\n\n" + marker + "\n"]
+else:
+    out = ["(* %s *)\n" % spec["header"].replace("*)", "* )")]
+    for r in spec["requires"]:
+        out.append(r + "\n")
+    out.append("\n")
 for t in spec["theorems"]:
-    src = open("/verif/coq/" + t["file"]).read()
-    m = re.search(r"^(?:Theorem|Lemma|Corollary)\s+%s\b(.*?)\.\s*\nProof\." % re.escape(t["source"]), src, flags=re.S | re.M)
+    src = re.sub(r"\(\*.*?\*\)", "", open("/verif/coq/" + t["file"]).read(), flags=re.S)   # comments removed
+    m = re.search(r"^(?:Theorem|Lemma|Corollary|Example)\s+%s\b(.*?)\.\s*\nProof\." % re.escape(t["source"]), src, flags=re.S | re.M)
     if not m:
         sys.exit("cannot find %s in %s" % (t["source"], t["file"]))
     sig = m.group(1)
@@ -27,10 +41,11 @@ for t in spec["theorems"]:
     binders, stmt = sig[:pos].strip(), sig[pos + 1:].strip()
     if t.get("comment"):
         out.append("(* %s *)\n" % t["comment"])
+    kw = t.get("keyword", "Theorem")
     if binders:
-        out.append("Theorem %s : forall %s,\n  %s.\nProof. exact %s. Qed.\nPrint Assumptions %s.\n\n" % (t["name"], binders, stmt, t["source"], t["name"]))
+        out.append(kw + " %s : forall %s,\n  %s.\nProof. exact %s. Qed.\nPrint Assumptions %s.\n\n" % (t["name"], binders, stmt, t["source"], t["name"]))
     else:
-        out.append("Theorem %s :\n  %s.\nProof. exact %s. Qed.\nPrint Assumptions %s.\n\n" % (t["name"], stmt, t["source"], t["name"]))
+        out.append(kw + " %s :\n  %s.\nProof. exact %s. Qed.\nPrint Assumptions %s.\n\n" % (t["name"], stmt, t["source"], t["name"]))
 if spec.get("extra"):
     out.append(spec["extra"])
 open("/verif/coq/" + spec["out"], "w").write("".join(out))
